@@ -74,6 +74,7 @@ type FuncData struct {
 	name      string
 	classNd   *Node // for default constructors
 	fromEval  bool  // created while eval code was running (goja resolves its this / names dynamically)
+	epoch     int   // parse epoch of the code that contains the function (template sites)
 	selfNamed bool  // created by a named function expression (its name is bound in an own outer environment)
 }
 
